@@ -1,6 +1,6 @@
 (* the single place with extraction directives: ExtrOcamlBasic only (bool, option, unit, list, prod,
    sumbool mapped to OCaml's); nat, positive, Z stay the extracted inductives; no Extract Constant. *)
-From TrV Require Import Calc Spec Params Render Osrm Loader.
+From TrV Require Import Calc Spec Params Render Osrm Loader Loader2.
 Require Import Extraction ExtrOcamlBasic.
 Extraction Language OCaml.
 
@@ -11,4 +11,5 @@ Extraction "Extract/model.ml" conn_set calc_single alternatives calc_allnodes fi
   service_from_origin_b service_to_destination_b route_lines sort_nat list_eqb
   optimize OPT_FUEL find_conn emit minw_true delete_excluded all_inclusive
   create_route create_access handle_route handle_access handle_update response_code stoi stod_ok
-  summary_lines osrm_rows handle_lookups load_nodes derive_rfp load_schedules data_status.
+  summary_lines osrm_rows handle_lookups load_nodes derive_rfp load_schedules data_status
+  encode_all load_steps load_all data_of sizes_of update status_of refs_safe.
